@@ -151,6 +151,10 @@ func runHistory(r *ev.Run, v pdf.Version, hist []uint8) histResult {
 				return res
 			}
 			res.pruned = errClass(b.Err)
+			if f := resetVariant(v, hist, e, nil, true); f != nil {
+				res.runs++
+				res.fail = f
+			}
 			return res
 		}
 	}
@@ -215,6 +219,12 @@ func runHistory(r *ev.Run, v pdf.Version, hist []uint8) histResult {
 			return res
 		}
 	}
+	if f := resetVariant(v, hist, e, ops, false); f != nil {
+		res.runs++
+		res.fail = f
+		return res
+	}
+	res.runs++
 	if f, n := harvestVariants(v, hist, e, ops); f != nil {
 		res.runs += n
 		res.fail = f
@@ -230,46 +240,101 @@ func runHistory(r *ev.Run, v pdf.Version, hist []uint8) histResult {
 	return res
 }
 
+// resetVariant runs the history on a Builder that has been used and Reset
+// before.  The statement asks of such a Builder what it asks of a fresh one:
+// whatever it accepts must be a valid operator sequence (judged by the
+// Figure 9 automaton, and balanced when Close succeeds).  That it accepts,
+// rejects and writes the same as a fresh Builder is not demanded; differences
+// that leave the output valid are not failures.
+func resetVariant(v pdf.Version, hist []uint8, e *env, plain []content.Operator, wantRejected bool) *failure {
+	b := builder.New(content.Page, nil, v)
+	b.PushGraphicsState()
+	b.SetLineWidth(3)
+	b.Reset()
+	for _, h := range hist {
+		calls[h].do(b, e)
+		if b.Err != nil {
+			return nil
+		}
+	}
+	names := strings.Join(mkBuilderCase(v, hist).Names, ", ")
+	a := newFig9(v >= pdf.V2_0)
+	for i, op := range b.Stream {
+		if why := a.step(string(op.Name)); why != "" {
+			return &failure{"builder-after-reset-output-invalid:" + why, fmt.Sprintf("Builder (PDF %s) after Reset accepted %s; its output is not a valid operator sequence: operator %d (%s): %s", v, names, i, op.Name, why)}
+		}
+	}
+	if b.Close() == nil {
+		if why := a.closed(); why != "" {
+			return &failure{"builder-after-reset-close-accepts:" + why, fmt.Sprintf("Builder (PDF %s) after Reset: Close() = nil after %s but the output %s", v, names, why)}
+		}
+	}
+	return nil
+}
+
 // harvestVariants re-runs an accepted history with Builder.Harvest inserted
 // before one or before two of its calls (every choice of positions).  The
-// harvested segments are only looked at after the last call, as a caller does
-// who collects the segments of a page and writes them at the end; their
-// concatenation with the rest must serialise to the bytes of the plain run.
+// harvested segments are looked at twice: at once, and after the last call,
+// as a caller does who collects the segments of a page and writes them at the
+// end.  Demanded: a segment handed out does not change afterwards, and the
+// segments followed by the rest form a valid operator sequence (balanced when
+// Close succeeds) - what the statement asks of every stream the Builder
+// produces.  That the segments equal the plain run cut in pieces is not
+// demanded.
 func harvestVariants(v pdf.Version, hist []uint8, e *env, plain []content.Operator) (*failure, int) {
 	n := len(hist)
 	runs := 0
 	if n < 2 {
 		return nil, 0
 	}
-	want, err := serialise(plain)
-	if err != nil {
-		return nil, 0 // (judged by checkSeq)
-	}
+	names := strings.Join(mkBuilderCase(v, hist).Names, ", ")
 	try := func(c1, c2 int) *failure {
 		runs++
 		b := builder.New(content.Page, nil, v)
 		var segs []*content.Operators
+		var snaps [][]byte
 		for i, h := range hist {
 			if i == c1 || i == c2 {
 				seg, err := b.Harvest()
 				if err != nil {
-					return &failure{"builder-harvest:error", fmt.Sprintf("Harvest before call %d of %s fails: %v", i, strings.Join(mkBuilderCase(v, hist).Names, ", "), err)}
+					return nil // (a Builder may refuse; nothing is produced then)
+				}
+				snap, err := serialise(seg.Ops)
+				if err != nil {
+					return nil // (judged by checkSeq on the plain run)
 				}
 				segs = append(segs, seg)
+				snaps = append(snaps, snap)
 			}
 			calls[h].do(b, e)
 			if b.Err != nil {
-				return &failure{"builder-harvest:changes-acceptance", fmt.Sprintf("with Harvest before calls %d/%d, call %d of the accepted history %s fails: %v", c1, c2, i, strings.Join(mkBuilderCase(v, hist).Names, ", "), b.Err)}
+				return nil
 			}
 		}
-		var all []content.Operator
-		for _, seg := range segs {
-			all = append(all, seg.Ops...)
+		a := newFig9(v >= pdf.V2_0)
+		k := 0
+		for si, seg := range segs {
+			later, err := serialise(seg.Ops)
+			if err != nil || string(later) != string(snaps[si]) {
+				return &failure{"builder-harvest:segment-changes-after-harvest", fmt.Sprintf("Builder (PDF %s) history %s, Harvest before call(s) %d/%d: segment %d serialised to %q when it was harvested and to %q (%v) after the last call", v, names, c1, c2, si, clip(snaps[si]), clip(later), err)}
+			}
+			for _, op := range seg.Ops {
+				if why := a.step(string(op.Name)); why != "" {
+					return &failure{"builder-harvest:segments-invalid:" + why, fmt.Sprintf("Builder (PDF %s) history %s, Harvest before call(s) %d/%d: the segments in order are not a valid operator sequence: operator %d (%s): %s", v, names, c1, c2, k, op.Name, why)}
+				}
+				k++
+			}
 		}
-		all = append(all, b.Stream...)
-		got, err := serialise(all)
-		if err != nil || string(got) != string(want) {
-			return &failure{"builder-harvest:segments-differ", fmt.Sprintf("Builder (PDF %s) history %s: with Harvest before call(s) %d/%d the segments, read after the last call, serialise to %q (%v); without Harvest the stream is %q", v, strings.Join(mkBuilderCase(v, hist).Names, ", "), c1, c2, clip(got), err, clip(want))}
+		for _, op := range b.Stream {
+			if why := a.step(string(op.Name)); why != "" {
+				return &failure{"builder-harvest:segments-invalid:" + why, fmt.Sprintf("Builder (PDF %s) history %s, Harvest before call(s) %d/%d: the segments in order are not a valid operator sequence: operator %d (%s): %s", v, names, c1, c2, k, op.Name, why)}
+			}
+			k++
+		}
+		if b.Close() == nil {
+			if why := a.closed(); why != "" {
+				return &failure{"builder-harvest:close-accepts:" + why, fmt.Sprintf("Builder (PDF %s) history %s, Harvest before call(s) %d/%d: Close() = nil but the segments in order %s", v, names, c1, c2, why)}
+			}
 		}
 		return nil
 	}
